@@ -356,9 +356,10 @@ def run(chk):
 def bytelen(chk, repo, fn, param: str, rule: str):
     """Entry points that frame a caller-supplied buffer by its len(): a memoryview with items wider than one byte must be re-shaped first
     (len() counts items, the wire counts bytes)."""
-    shape_tests = {id(x) for st in fn.node.body if isinstance(st, ast.If) and "nbytes" in norm.raw(st.test) for x in ast.walk(st.test)}
+    shape_tests = {id(x) for st in ast.walk(fn.node) if isinstance(st, ast.If) and "nbytes" in norm.raw(st.test) for x in ast.walk(st.test)}
     uses = [c for c in ast.walk(fn.node) if isinstance(c, ast.Call) and norm.raw(c.func) == "len" and c.args and norm.raw(c.args[0]) == param and id(c) not in shape_tests]
-    passed = [c for c in prog.calls_in(fn.node) if any(isinstance(a, ast.Name) and a.id == param for a in c.args) and norm.raw(c.func).startswith("self.")]
+    own = set(fn.cls.methods) if getattr(fn, "cls", None) is not None else set()
+    passed = [c for c in prog.calls_in(fn.node) if any(isinstance(a, ast.Name) and a.id == param for a in c.args) and isinstance(c.func, ast.Attribute) and norm.raw(c.func.value) == "self" and c.func.attr in own]
     first = min([c.lineno for c in uses + passed], default=None)
     if first is None:
         chk.analysis_error(f"{rule}: {fn.qualname} no longer measures or forwards `{param}`")
